@@ -299,3 +299,94 @@ Proof.
   - vm_compute. left. reflexivity.
   - unfold in_front_of_a_ray. vm_compute. intros [H|H]; apply H; reflexivity.
 Qed.
+
+(* ---- machine arithmetic of the circle test: range in which the unbounded model IS the code --------------
+   `length_squared` is i32 (geometry/mod.rs:50-52: x.pow(2) + y.pow(2)), then `as u32` (circle/mod.rs:135,
+   distance_iterator.rs:51).  In a release build the squares wrap: Circle::new((0,0),11).contains((32773,5)) and
+   Sector (0,0) d=11 sweep 360 deg .contains((32773,5)) are TRUE (delta.x = -65536, 65536^2 = 2^32 wraps to 0);
+   a build with overflow checks panics instead.  probe_ok is the range of probe points for which no wrap occurs;
+   every theorem about `se_contains` / `sc_contains` speaks about the code for such probes only.  All points of
+   points() and of the styled iterators satisfy it (they lie in a bounding box of extent < 32768). *)
+Definition wrap_i32 (z : Z) : Z := (z + 2147483648) mod 4294967296 - 2147483648.
+Definition as_u32 (z : Z) : Z := z mod 4294967296.
+
+(* circle/mod.rs:132-139 with wrapping i32 operations *)
+Definition sc_contains_i32 (c : sm_circle) (p : point) : bool :=
+  let dx := wrap_i32 (px (sc_center_2x c) - wrap_i32 (px p * 2)) in
+  let dy := wrap_i32 (py (sc_center_2x c) - wrap_i32 (py p * 2)) in
+  as_u32 (wrap_i32 (wrap_i32 (dx * dx) + wrap_i32 (dy * dy))) <? sc_threshold c.
+
+Definition probe_ok (c : sm_circle) (p : point) : Prop :=
+  Z.abs (px p * 2 - px (sc_center_2x c)) <= 32767 /\ Z.abs (py p * 2 - py (sc_center_2x c)) <= 32767.
+
+Lemma wrap_i32_small z : -2147483648 <= z < 2147483648 -> wrap_i32 z = z.
+Proof. intros H. unfold wrap_i32. rewrite Z.mod_small by lia. lia. Qed.
+
+Lemma sq_le_bound x b : 0 <= b -> Z.abs x <= b -> 0 <= x * x <= b * b.
+Proof. intros Hb H. split; nia. Qed.
+
+Theorem sc_contains_i32_eq c p :
+  rect_ok (sc_bbox c) -> probe_ok c p -> sc_contains_i32 c p = sc_contains c p.
+Proof.
+  intros Hok [Hx Hy]. destruct c as [[x y] d]. destruct p as [qx qy].
+  destruct Hok as [[Hpx Hpy] [[Hd0 Hd1] _]].
+  unfold sc_contains_i32, sc_contains, sc_center_2x, sm_center_2x, sm_len2, sm_twice, psub, sat_sub_u32, bound, sc_bbox in *.
+  cbn [sc_tl sc_d px py tl sz sw sh] in *.
+  set (cx := x * 2 + Z.max (d - 1) 0) in *. set (cy := y * 2 + Z.max (d - 1) 0) in *.
+  assert (Bx : -1073741824 <= cx <= 1610612736) by (subst cx; lia).
+  assert (By : -1073741824 <= cy <= 1610612736) by (subst cy; lia).
+  rewrite (wrap_i32_small (qx * 2)) by lia. rewrite (wrap_i32_small (qy * 2)) by lia.
+  rewrite (wrap_i32_small (cx - qx * 2)) by lia. rewrite (wrap_i32_small (cy - qy * 2)) by lia.
+  pose proof (sq_le_bound (cx - qx * 2) 32767 ltac:(lia) ltac:(lia)) as Sx.
+  pose proof (sq_le_bound (cy - qy * 2) 32767 ltac:(lia) ltac:(lia)) as Sy.
+  set (X := (cx - qx * 2) * (cx - qx * 2)) in *. set (Y := (cy - qy * 2) * (cy - qy * 2)) in *.
+  rewrite (wrap_i32_small X) by lia. rewrite (wrap_i32_small Y) by lia.
+  rewrite (wrap_i32_small (X + Y)) by lia. unfold as_u32. rewrite Z.mod_small by lia. reflexivity.
+Qed.
+
+(* outside the range the machine test really differs (release build), and contains-in-bbox fails for the code *)
+Theorem sc_contains_far_probe_wraps :
+  exists c p, rect_ok (sc_bbox c) /\ ~ probe_ok c p /\
+    sc_contains_i32 c p = true /\ sc_contains c p = false /\ contains (sc_bbox c) p = false.
+Proof.
+  exists (SC (P 0 0) 11), (P 32773 5).
+  split; [unfold rect_ok, point_ok, size_ok, bound; cbn; lia|].
+  split; [intros [H _]; vm_compute in H; apply H; reflexivity|].
+  split; [vm_compute; reflexivity|]. split; vm_compute; reflexivity.
+Qed.
+
+(* Sector::contains as the release build computes it *)
+Definition se_contains_i32 (s : sector) (p : point) : bool :=
+  if sc_contains_i32 (se_to_circle s) p
+  then ps_contains (se_ps s) (psub (sm_twice p) (se_center_2x s))
+  else false.
+
+Theorem se_contains_i32_eq s p :
+  rect_ok (se_bbox s) -> probe_ok (se_to_circle s) p -> se_contains_i32 s p = se_contains s p.
+Proof. intros Hok Hp. unfold se_contains_i32, se_contains. rewrite sc_contains_i32_eq by assumption. reflexivity. Qed.
+
+Theorem sector_contains_in_bbox_machine s p :
+  rect_ok (se_bbox s) -> probe_ok (se_to_circle s) p ->
+  se_contains_i32 s p = true -> contains (se_bbox s) p = true.
+Proof.
+  intros Hok Hp H. rewrite se_contains_i32_eq in H by assumption.
+  apply sector_contains_in_bbox; [|assumption]. destruct Hok as [_ [[Hw _] _]]. exact Hw.
+Qed.
+
+(* every point of the bounding box is inside the probe range when the diameter is below 32768 *)
+Lemma bbox_points_probe_ok c p :
+  0 <= sc_d c <= 32767 -> contains (sc_bbox c) p = true -> probe_ok c p.
+Proof.
+  intros Hd H. apply contains_spec in H. destruct c as [[x y] d]. destruct p as [qx qy].
+  unfold probe_ok, sc_center_2x, sm_center_2x, sc_bbox, sat_sub_u32 in *. cbn [sc_tl sc_d px py tl sz sw sh] in *. lia.
+Qed.
+
+(* exactly opposite rounded normals (sweeps just below 180 deg): the Intersection is exactly one closed half plane -
+   the class predicate K18 is true there (det = 0) although nothing is wrong *)
+Theorem sector_opposite_normals_half_plane ps dl :
+  ps_op ps = OpIntersection -> ps_left ps = pneg (ps_right ps) ->
+  ps_contains ps dl = (0 <=? sm_odist (ps_right ps) dl).
+Proof.
+  intros Hop Hl. unfold ps_contains. rewrite Hop, Hl. cbn [sm_exec].
+  unfold sm_odist, sm_dot, pneg. cbn [px py]. lia.
+Qed.
